@@ -4,6 +4,7 @@
   c10_impl.py chi2fcn   < JSON list of [signs, x]         -> JSON list of decoded p (or ["raise", type])
   c10_impl.py mainrows  < JSON {comp, try_integration, log_opt, rows:[...]} -> rows of negloglike_comp<n>.dat
   c10_impl.py fits      < JSON list of fit jobs            -> JSON list of fit results (real scipy minimize)
+  c10_impl.py direct    < JSON {data_seed, functions}      -> parameter-free / NaN-on-data functions on a real GaussLikelihood
 
 Scripted case (see harness/props/C10.py: gen_case):
   {"has":[0/1..], "max_param":n, "nparam":n, "comp":n, "ignore_prev":b, "in_prev":b, "log_opt":b, "test_success":b,
@@ -356,5 +357,42 @@ def cmd_fits():
     json.dump(out, sys.stdout)
 
 
+def cmd_direct():
+    """Parameter-free functions and NaN-on-data functions on a real GaussLikelihood (real minimize untouched)."""
+    import esr.fitting.likelihood as L
+    job = json.load(sys.stdin)
+    root = tempfile.mkdtemp(prefix="c10d.", dir=TMP)
+    out = []
+    try:
+        rs = np.random.RandomState(job["data_seed"])
+        X = np.linspace(0.5, 3.0, 16)
+        sig = np.full_like(X, 0.25)
+        Y = 1.0 + 2.0 * X + sig * rs.standard_normal(len(X))
+        np.savetxt(root + "/data.txt", np.transpose([X, Y, sig]))
+        with contextlib.redirect_stdout(io.StringIO()):
+            lik = L.GaussLikelihood("data.txt", "c10direct", data_dir=root)
+        calls = [0]
+
+        def counting(*a, **k):
+            calls[0] += 1
+            return REAL_MINIMIZE(*a, **k)
+        test_all.minimize = counting
+        for fcn in job["functions"]:
+            for log_opt in (False, True):
+                calls[0] = 0
+                with contextlib.redirect_stdout(io.StringIO()):
+                    v, p = test_all.optimise_fun(fcn, lik, 5, 0, 3, comp=0, log_opt=log_opt, max_param=4)
+                direct = None
+                if "a0" not in fcn:
+                    _, eq, _ = lik.run_sympify(fcn)
+                    direct = float(lik.negloglike([], sympy.lambdify(SX, eq, modules=["numpy"])))
+                out.append({"fcn": fcn, "log_opt": log_opt, "value": float(v), "params": [float(q) for q in p],
+                            "direct": direct, "minimize_calls": calls[0]})
+    finally:
+        test_all.minimize = REAL_MINIMIZE
+        shutil.rmtree(root, ignore_errors=True)
+    json.dump(out, sys.stdout)
+
+
 if __name__ == "__main__":
-    {"scripts": cmd_scripts, "chi2fcn": cmd_chi2fcn, "mainrows": cmd_mainrows, "fits": cmd_fits}[sys.argv[1]]()
+    {"scripts": cmd_scripts, "chi2fcn": cmd_chi2fcn, "mainrows": cmd_mainrows, "fits": cmd_fits, "direct": cmd_direct}[sys.argv[1]]()
